@@ -190,6 +190,7 @@ def histStep (db : Db) (step : String) : Db × String :=
     | .error e => (db, loadErrStr e)
     | .ok l => (db, s!"mtus=[{natList ((l.filterMap DbRec.mtuOf).eraseDups.mergeSort (· ≤ ·))}]")
   | "I" => (db, "-")
+  | "A" => (db, "added")     -- `Database.add` between two loads: the histories only observe after the next load, which replaces everything
   | _ => (db, "?step")
 
 def histRun (db : Db) : List String → List String → List String
